@@ -27,7 +27,7 @@ enum { EV_ADD = 0, EV_RUN, EV_REPLY_OLDEST, EV_REPLY_NEWEST, EV_REPLY_DUP, EV_RE
        EV_NALL };
 static const char EVCH[EV_NALL + 1] = "ARonduxmseg1haCXPwp+TKGZ";
 
-typedef struct { int cache, maxreq, snd, rcv, con; } config_t;
+typedef struct { int cache, maxreq; long long snd, rcv, con; } config_t;
 
 typedef struct {
 	KSI_AsyncHandle *h;             /* pointer identity of the accepted handle */
@@ -538,7 +538,7 @@ static int apply_inner(int ev) {
 		case EV_SEND_WOULDBLOCK: if (W.send_wouldblock || W.send_partial) return 0; W.send_wouldblock = 1; return 1;
 		case EV_SEND_PARTIAL: if (W.send_wouldblock || W.send_partial) return 0; W.send_partial = 1; return 1;
 		case EV_CLOCK_1: sn_now += 1; return 1;
-		case EV_CLOCK_BIG: { int m = W.cfg.snd; if (W.cfg.rcv > m) m = W.cfg.rcv; if (W.cfg.con > m) m = W.cfg.con; sn_now += m + 2; return 1; }
+		case EV_CLOCK_BIG: { long long m = W.cfg.snd; if (W.cfg.rcv > m && W.cfg.rcv < 1000000) m = W.cfg.rcv; if (W.cfg.con > m && W.cfg.con < 1000000) m = W.cfg.con; sn_now += (time_t)(m + 2); return 1; }   /* "never" time-outs (2^31 and more) are not waited for */
 	}
 	return 0;
 }
@@ -548,14 +548,20 @@ static void drain(void) {
 	int rounds;
 	sn_conn *c;
 	W.send_wouldblock = W.send_partial = 0;
-	for (rounds = 0; rounds < 60 && (outstanding() > 0 || rounds < 3); rounds++) {
+	for (rounds = 0; rounds < (W.cfg.rcv > 1000 ? 14 : 60) && (outstanding() > 0 || rounds < 3); rounds++) {
 		c = live_conn();
 		if (c) W.budget = c->in.n - c->in_off;
 		do_run();
 		if (W.violated) return;
 		sn_now += 1;
 	}
-	if (outstanding() > 0) { HF("request-lost", "%d accepted request(s) never handed back within 60 further rounds / 60 virtual seconds of a quiet network", outstanding()); W.violated = 1; }
+	if (outstanding() > 0) {
+		int k, must = 0;
+		/* with a receive time-out that never elapses within the horizon, a request that was written and that the server never answered
+		 * legitimately stays pending; everything else must have come back */
+		for (k = 0; k < W.nreq; k++) if (!W.req[k].returned && !(W.cfg.rcv > 1000 && W.req[k].sent_complete && !W.req[k].answered && !W.req[k].is_conf)) must++;
+		if (must > 0) { HF("request-lost", "%d accepted request(s) never handed back within 60 further rounds / 60 virtual seconds of a quiet network", must); W.violated = 1; }
+	}
 }
 
 /* ------------------------------------------------------------------ canonical state key */
@@ -567,8 +573,9 @@ static uint64_t state_key(void) {
 	TcpAsyncCtx *tc = (TcpAsyncCtx *)ac->clientImpl;
 	uint64_t h = 1469598103934665603ULL;
 	size_t i;
-	int k, maxto = W.cfg.snd > W.cfg.rcv ? W.cfg.snd : W.cfg.rcv;
-	if (W.cfg.con > maxto) maxto = W.cfg.con;
+	int k, maxto = (int)(W.cfg.snd > W.cfg.rcv ? W.cfg.snd : W.cfg.rcv);
+	if (W.cfg.con > maxto) maxto = (int)W.cfg.con;
+	if (maxto > 1000 || maxto < 0) maxto = 1000;
 	h = mix(h, ac->pending); h = mix(h, ac->received); h = mix(h, ac->tail); h = mix(h, ac->requestCount); h = mix(h, ac->requestCountOffset);
 	h = mix(h, ac->serverConf ? 1 + (uint64_t)ac->serverConf->state : 0);
 	for (i = 1; i < ac->options[KSI_ASYNC_OPT_REQUEST_CACHE_SIZE]; i++) {
@@ -842,12 +849,13 @@ static void part_readd(void) {
 /* unequal send / receive time-outs: the exact moment a request may be given up. Small alphabet (add, run, reply, deliver all,
  * clock + 1 s), deeper search */
 static void part_timeouts(void) {
-	static const config_t TCFG[] = { {2, 2, 2, 10, 10}, {2, 2, 10, 2, 10}, {1, 1, 2, 5, 10}, {2, 2, 3, 1, 10} };
+	static const config_t TCFG[] = { {2, 2, 2, 10, 10}, {2, 2, 10, 2, 10}, {1, 1, 2, 5, 10}, {2, 2, 3, 1, 10},
+	                                 {2, 2, 10, 4294967298LL, 10}, {2, 2, 10, 2147483648LL, 10} };   /* receive time-outs of 2^32+2 and 2^31 seconds: never within the horizon */
 	static const int ALPHA[] = {EV_ADD, EV_RUN, EV_REPLY_OLDEST, EV_DELIVER_ALL, EV_CLOCK_1};
 	int ci, a1, depth = VF_THOROUGH ? 10 : 8, e;
-	for (ci = 0; ci < 4; ci++) for (a1 = 0; a1 < 5; a1++) {
+	for (ci = 0; ci < 6; ci++) for (a1 = 0; a1 < 5; a1++) {
 		int hist[16];
-		if (!vf_case_begin("timeouts:snd%d.rcv%d:%c:d%d", TCFG[ci].snd, TCFG[ci].rcv, EVCH[ALPHA[a1]], depth)) continue;
+		if (!vf_case_begin("timeouts:snd%lld.rcv%lld:%c:d%d", TCFG[ci].snd, TCFG[ci].rcv, EVCH[ALPHA[a1]], depth)) continue;
 		g_nalpha = 0;
 		for (e = 0; e < 5; e++) g_alpha[g_nalpha++] = ALPHA[e];
 		memset(seen, 0, ((size_t)1 << SEEN_BITS) * sizeof *seen);
@@ -900,7 +908,7 @@ static void run(void) {
 			vf_count("states", n_states); vf_count("transitions", n_transitions); vf_count("traces", n_traces); vf_count("pruned_revisits", n_pruned);
 			vf_max("max_depth", d);
 			hist_name(hist, plen, nm);
-			if (ci == 0 && e1 == 0 && e2 == 1) vf_sample("cfg{cache=%d,maxreq=%d,snd=%d,rcv=%d,con=%d} prefix %s depth %d: %ld states, %ld transitions (event letters: %s)", CONFIGS[ci].cache, CONFIGS[ci].maxreq, CONFIGS[ci].snd, CONFIGS[ci].rcv, CONFIGS[ci].con, nm, d, n_states, n_transitions, EVCH);
+			if (ci == 0 && e1 == 0 && e2 == 1) vf_sample("cfg{cache=%d,maxreq=%d,snd=%lld,rcv=%lld,con=%lld} prefix %s depth %d: %ld states, %ld transitions (event letters: %s)", CONFIGS[ci].cache, CONFIGS[ci].maxreq, CONFIGS[ci].snd, CONFIGS[ci].rcv, CONFIGS[ci].con, nm, d, n_states, n_transitions, EVCH);
 			vf_obs("states=%ld", n_states);
 			vf_case_end(n_traces > 0);
 		}
